@@ -38,6 +38,11 @@ def gen(r, n):
     # ... followed by a second stop inside the grace period that started at the continue
     scs.append(dict(u=150, period=20, ta=None, grace=3, leak=0.7, dur=14, on_term="ignore",
                     sigs=[(1.5, "TSTP"), (2.5, "TERM"), (3.5, "CONT"), (4.5, "TSTP"), (6.5, "CONT")]))
+    # (which of the two is handled first is up to the signal stream map: several runs, each signal)
+    for s1, gr in (("HUP", 2), ("QUIT", 3), ("INT", 3), ("TERM", 2), ("HUP", 3), ("QUIT", 2)):
+        scs.append(dict(u=150, period=20, ta=None, grace=gr, leak=0.7, dur=14, on_term="ignore",
+                        sigs=[(1.5, "TSTP"), (2.5, s1), (3.5, "CONT")] +
+                             ([(4.5, "TSTP"), (6.5, "CONT")] if gr == 3 else [])))
     # ... while the unit is being terminated for a timeout: killed at the continue
     scs.append(dict(u=150, period=1, ta=2, grace=4, leak=0.7, dur=12, on_term="ignore",
                     sigs=[(2.5, "TSTP"), (3.5, "INT"), (4.5, "CONT")]))
@@ -112,7 +117,7 @@ def run(tier, seed):
         chk.violation("broken-obligation", "e2e-build", dict(error=str(ex)[-3000:]), no_input=True)
         return chk.finish(gate, "make -C coq Properties/C12.vo", [])
     r = vlib.rng_for(seed, PROP)
-    scs = gen(r, 67 if tier == "thorough" else 24)
+    scs = gen(r, 73 if tier == "thorough" else 30)
     life_scs = []
     if U.check_family(chk, rig, scs, U.oracle_C12, "c12"):
         if U.check_family(chk, rig, info_scenarios(), oracle_info, "c12i"):
